@@ -76,8 +76,12 @@ fn step_zbdd(s: &mut Mach, ins: &Instr, model: &mut Model, ctx: &mut RunCtx) -> 
 }
 
 fn step_kind(s: &mut Mach, ins: &Instr, model: &mut Model, ctx: &mut RunCtx) -> bool {
-    step_bool(s, ins, model, ctx) || step_zbdd(s, ins, model, ctx) || crate::kinds::dddmp::step_dddmp_zbdd(s, ins, model, ctx)
+    step_bool(s, ins, model, ctx) || step_zbdd(s, ins, model, ctx) || step_dddmp(s, ins, model, ctx)
 }
 
 include!("../exec_body.rs");
 include!("bool_body.rs");
+include!("dddmp_body.rs");
+fn complement_edge<'id>(m: &Mgr<'id>, e: Ed<'id>) -> oxidd::util::AllocResult<Ed<'id>> {
+    use oxidd::BooleanFunction as _; F::not_edge_owned(m, e)
+}
